@@ -147,7 +147,10 @@ pub fn wrap_patches(p: &Parse) -> Vec<Dmg> {
         let Some(l) = &u.leaf else { continue };
         let dims: Vec<&Field> = p.fields.iter().filter(|f| f.unit == Some(ui) && f.role == Role::Dim).collect();
         for d in &dims {
-            let others: u128 = dims.iter().filter(|x| x.off != d.off).map(|x| x.val as u128).product();
+            let others: u128 = dims
+                .iter()
+                .filter(|x| x.off != d.off)
+                .fold(1u128, |a, x| a.saturating_mul(x.val as u128));
             if others == 0 || others > u64::MAX as u128 {
                 continue;
             }
